@@ -83,6 +83,24 @@ def run(tier):
             if any("Error " in x for x in f[:2]) or f[0] in ("missing", "not-utf8") or f[0].startswith("panic"):
                 bad += 1; ck.violation("invalid-lexeme", "the file written by penne fuzz tokens has lexical errors", data.decode("utf-8", errors="replace")[:20000])
     ck.log("command line tool: %d files written and lexed" % ncli)
+    # the string-literal branch of the fuzzer keeps a random `char` unescaped (fuzzer.rs: rng.random::<char>(), any scalar
+    # value but the quote, the backslash and control characters below U+0020 / U+007F): both lexers accept every one of
+    # them raw inside a literal - the whole Basic Multilingual Plane and a sample of the other planes, 64 per literal
+    chars = [c for c in range(0x20, 0x10000) if c not in (0x22, 0x5c, 0x7f) and not (0xD800 <= c <= 0xDFFF)]
+    crng = random.Random(ck.seed + 1919)
+    chars += crng.sample(range(0x10000, 0x110000), 4096 if tier == "quick" else 60000)
+    cfiles = []
+    for k in range(0, len(chars), 64):
+        cfiles.append(("ch%d" % (k // 64), ('var s = "%s";\n' % "".join(chr(c) for c in chars[k:k + 64])).encode("utf-8")))
+    clex = C.run_harness("lex", cfiles, ck.work + "/chars", timeout=1800)
+    cbad = 0
+    for cid, data in cfiles:
+        f = clex.get(cid, ["missing", "missing"])
+        if any("Error " in x for x in f[:2]) or f[0] in ("missing", "not-utf8") or f[0].startswith("panic"):
+            cbad += 1; bad += 1
+            which = [g for g, x in zip(("first", "second"), f[:2]) if "Error " in x]
+            ck.violation("invalid-lexeme:raw-character", "a string literal of characters the fuzzer emits unescaped is rejected by the %s-generation lexer" % " and ".join(which or ["?"]), data.decode("utf-8")[:400] + "\n" + " | ".join(x[:200] for x in f[:2]))
+    ck.log("raw characters in string literals: %d literals, %d rejected" % (len(cfiles), cbad))
     ck.log("fuzzer: %d runs, %d bytes, longest identifier %d, %d token kinds seen, %s, %d problems" % (stats["runs"], total, maxident, kinds, dict(stats), bad))
     if not proof_ok:
         ck.violation("tie-broken:proof", "Props/C19.v no longer checks", getattr(ck, "proof_output", "")[-2000:])
